@@ -31,3 +31,8 @@ void verif_throw_event(void) { __CPROVER_assume(0); }
 #else
 void verif_throw_event(void) { __CPROVER_assert(0, "C++ exception thrown"); __CPROVER_assume(0); }
 #endif
+#ifdef WITNESS
+void verif_repo_assert_fail(const char* expr) { __CPROVER_assume(0); }
+#else
+void verif_repo_assert_fail(const char* expr) { __CPROVER_assert(0, "assert() in the repository code failed"); __CPROVER_assume(0); }
+#endif
